@@ -12,10 +12,13 @@ import OdakModel.Exec.OpsCodec
 import OdakModel.Exec.OpsDual
 import OdakModel.Exec.OpsGen
 import OdakModel.Exec.OpsGenGeom
+import OdakModel.Exec.OpsGenSamp
+import OdakModel.Exec.OpsGenSlice
+import OdakModel.Exec.OpsGenQuant
 /-! `odakdrv`: reads one operation per line on stdin, prints the model's answer per line. -/
 namespace Odak.Exec
 
-def allOps : List (String × Handler) := opsIndex ++ opsWave ++ opsBeam ++ opsRot ++ opsPolar ++ opsRay ++ opsRays ++ opsColour ++ opsSlicing ++ opsFovea ++ opsProp ++ opsLoss ++ opsCodec ++ opsHolo ++ opsDual ++ opsGen ++ opsGenGeom
+def allOps : List (String × Handler) := opsIndex ++ opsWave ++ opsBeam ++ opsRot ++ opsPolar ++ opsRay ++ opsRays ++ opsColour ++ opsSlicing ++ opsFovea ++ opsProp ++ opsLoss ++ opsCodec ++ opsHolo ++ opsDual ++ opsGen ++ opsGenGeom ++ opsGenSamp ++ opsGenSlice ++ opsGenQuant
 
 def step (line : String) : String :=
   match (line.trimAscii.toString.splitOn " ").filter (· ≠ "") with
